@@ -16,9 +16,14 @@
       `_UNSET.token` for an absent field; docs: "The passed value will be None".
     * `doc_gap_token_literal_witness`: the private token used as a criterion matches an absent field
       (an abuse of a private name, not a finding).
-  `match_eq_doc_partial` proves the statement under the exact guards (`OldOnlyFree`, `TokenBlind`,
-  `NoTokenLit`); `match_eq_doc_update` / `match_eq_doc_nonchanging` show the first guard is void
-  for update handlers and for watching/spawning/indexing causes.
+  `match_eq_doc_partial` proves the statement under the guards `OldOnlyFree h c` (exactly the F1
+  disagreement) and `TokenFree h c` (per handler AND cause: only where a consulted state of the field
+  is absent can the token be passed; sufficient, not necessary: another disjunct may hold anyway);
+  `match_eq_doc_update_partial` / `match_eq_doc_nonchanging_partial` show the first guard is void for
+  update handlers and for watching/spawning/indexing causes (the second one stays: C15-F2);
+  `oldOnlyFree_of_unchanged` / `oldOnlyFree_on_creation` are syntactic sufficient conditions.
+  Equality ("changed", "equals") is Python's `==` on both sides (`PyVal.eq`): bool/int coercion can
+  never show up as a doc gap (the harness keeps it out of the judged set).
 -/
 import Kopf.Lemmas.C15_Match
 import Kopf.Model.C15_Selector
